@@ -139,8 +139,9 @@ def check_native_code(c, v, tag, full_api):
             sub = NATIVE
             if not AT310:
                 import ops_prog
-                mids, _inner = ops_prog.mid_instruction_entries(c)
-                if mids:
+                # the same strict classification as C01: only if the moved mid-instruction entries
+                # explain the whole difference
+                if ops_prog._classify_lnotab_diff(c, r, c.co_name) == "co_lnotab:mid_instruction_entry":
                     sub = "lnotab:mid_instruction_entry"
             v.violate("full_api_table_differs", sub, "%s: table %s re-encoded by from_code/to_code as %s" % (tag, list(table)[:40], list(back)[:40]))
 
